@@ -355,13 +355,13 @@ def corpus(tier, families=FAMILIES, depth=2, k1=1, cap2=None, coarse=None):
     out = list(level1)
     if depth >= 2:
         quick = tier != "thorough"
-        reps = prune(level1, k1, coarse=quick if coarse is None else coarse)
+        reps = prune(level1, k1, coarse=True if coarse is None else coarse)
         level2 = expand(reps, companion(tier), tier, families, light=quick)
         if cap2:
             level2 = level2[:cap2]
         out += level2
         if depth >= 3:
-            reps2 = prune(level2, 1, coarse=True)
+            reps2 = prune(level2, 1, coarse=2)
             level3 = expand(reps2, companion("quick")[:6], tier, families, light=True)
             out += level3
     return out
